@@ -261,8 +261,8 @@ fn header(args: &Args) -> i32 {
     let corpus = load_corpus(args.req("corpus"));
     let seed: u64 = args.num("seed", 1);
     let thorough = args.str("tier") == Some("thorough");
-    let per_word: usize = args.num("per_word", 900);
-    let pairs: usize = args.num("pairs", if thorough { 200_000 } else { 6000 });
+    let per_word: usize = args.num("per_word", 480);
+    let pairs: usize = args.num("pairs", if thorough { 200_000 } else { 5000 });
     let mut out = Out::new(args.str("out"));
     let mut rng = Rng::new(seed ^ 0xC10);
 
@@ -292,8 +292,20 @@ fn header(args: &Args) -> i32 {
         bases.push((format!("corpus:{}", t.0), t.1.clone()));
     }
 
+    if args.str("bases").is_some() {
+        println!("{}", bases.len());
+        return 0;
+    }
+    // base=<i> restricts the run to one base file, base=pairs to the seeded multi-word overrides
+    let only: Option<usize> = args.str("base").and_then(|s| s.parse().ok());
+    let pairs_only = args.str("base") == Some("pairs");
     let mut mode = 0u8;
-    for (_name, base) in &bases {
+    for (bi, (name, base)) in bases.iter().enumerate() {
+        if pairs_only || only.map(|o| o != bi).unwrap_or(false) {
+            continue;
+        }
+        // the real font beyond the smallest one is swept with the seeded subset in both tiers
+        let thorough = thorough && !name.ends_with("cmr10.tfm");
         // every short length (truncation) and a few extensions
         let maxlen = base.len().min(64);
         for n in 0..=maxlen {
@@ -333,6 +345,23 @@ fn header(args: &Args) -> i32 {
         }
         if base.len() < 24 {
             continue;
+        }
+        // every pair of words against every pair of small boundary values (the order in which two
+        // failing tests are reported), on the two short complete bases
+        if name == "b24" || name == "min48" {
+            const SMALL: &[u16] = &[0, 1, 2, 255, 256, 32767, 32768];
+            for i in 0..12usize {
+                for j in i + 1..12 {
+                    for &vi in SMALL {
+                        for &vj in SMALL {
+                            let mut f = base.clone();
+                            set_word(&mut f, i, vi);
+                            set_word(&mut f, j, vj);
+                            header_event(&mut out, &f, mode);
+                        }
+                    }
+                }
+            }
         }
         // compensated overrides: word k changes by d and another size word by -d, so that the
         // sizes still add up and the reader gets past the preamble with shifted tables
@@ -385,6 +414,7 @@ fn header(args: &Args) -> i32 {
     }
     // seeded pairs / triples of boundary values on a base, with lf sometimes repaired so that
     // the sum test is reached with large sizes (i16 overflow region)
+    let pairs = if only.is_some() { 0 } else { pairs };
     for _ in 0..pairs {
         let base = &bases[3 + rng.below((bases.len() - 3) as u64) as usize].1;
         let mut f = base[..base.len().min(256)].to_vec();
@@ -458,12 +488,13 @@ fn plan(corpus: &Corpus, thorough: bool, seed: u64, scale: f64) -> Vec<JobKind> 
         }
         // the other classes: counts shrink with the size of the font
         let weight = if n > 60_000 { 0.15 } else if n > 8_000 { 0.5 } else { 1.0 };
-        let base = if thorough { 2600.0 } else { 46.0 } * scale * weight;
+        let base = if thorough { 700.0 } else { 46.0 } * scale * weight;
         for (class, share) in [
             ("trunc_fix", 0.5),
             ("trunc_consistent", 1.0),
             ("bytes", 2.0),
             ("section", 2.0),
+            ("index", 2.0),
             ("shift", 1.0),
             ("word", 0.7),
             ("extend", 0.2),
@@ -478,7 +509,7 @@ fn plan(corpus: &Corpus, thorough: bool, seed: u64, scale: f64) -> Vec<JobKind> 
         jobs.push(JobKind::Pl(i, "identity", 0));
         let n = s.len();
         let weight = if n > 400_000 { 0.04 } else if n > 100_000 { 0.15 } else if n > 30_000 { 0.5 } else { 1.0 };
-        let base = if thorough { 4000.0 } else { 70.0 } * scale * weight;
+        let base = if thorough { 150.0 } else { 70.0 } * scale * weight;
         for (class, share) in [
             ("token", 3.0),
             ("paren", 1.0),
@@ -495,7 +526,7 @@ fn plan(corpus: &Corpus, thorough: bool, seed: u64, scale: f64) -> Vec<JobKind> 
             }
         }
     }
-    let nsynth = ((if thorough { 120_000.0 } else { 2500.0 }) * scale) as usize;
+    let nsynth = ((if thorough { 25_000.0 } else { 2500.0 }) * scale) as usize;
     for _ in 0..nsynth {
         jobs.push(JobKind::Synth(rng.next()));
     }
@@ -626,6 +657,101 @@ fn mutate_tfm(src: &[u8], class: &str, param: u64) -> Vec<u8> {
                 mutate_bytes(&mut b, &mut rng, 3, 0);
             }
         }
+        "index" => {
+            // put an index (into the width/height/depth/italic/lig-kern/kern/exten tables, or a
+            // character code) exactly at, just below or just above the end of what it indexes
+            if let Some(sec) = sections(&b) {
+                let w: Vec<usize> = (0..12).map(|k| get_word(&b, k) as usize).collect();
+                let (bc, ec, nw, nh, nd, ni, nl, nk, ne) = (w[2], w[3], w[4], w[5], w[6], w[7], w[8], w[9], w[10]);
+                let around = |rng: &mut Rng, n: usize, max: usize| -> usize {
+                    let v = match rng.below(5) {
+                        0 => n.saturating_sub(1),
+                        1 => n,
+                        2 => n + 1,
+                        3 => max,
+                        _ => 0,
+                    };
+                    v.min(max)
+                };
+                for _ in 0..1 + rng.below(3) {
+                    let nchars = (ec + 1).saturating_sub(bc);
+                    match rng.below(if nl > 0 { 8 } else { 3 }) {
+                        0 | 1 if nchars > 0 => {
+                            let at = sec[2].0 + 4 * rng.below(nchars as u64) as usize;
+                            match rng.below(7) {
+                                0 => b[at] = around(&mut rng, nw, 255) as u8,
+                                1 => b[at + 1] = ((around(&mut rng, nh, 15) as u8) << 4) | (b[at + 1] & 15),
+                                2 => b[at + 1] = (b[at + 1] & 0xF0) | around(&mut rng, nd, 15) as u8,
+                                3 => b[at + 2] = ((around(&mut rng, ni, 63) as u8) << 2) | (b[at + 2] & 3),
+                                4 => {
+                                    b[at + 2] = (b[at + 2] & 0xFC) | 1;
+                                    b[at + 3] = around(&mut rng, nl, 255) as u8;
+                                }
+                                5 => {
+                                    b[at + 2] = (b[at + 2] & 0xFC) | 3;
+                                    b[at + 3] = around(&mut rng, ne, 255) as u8;
+                                }
+                                _ => {
+                                    b[at + 2] = (b[at + 2] & 0xFC) | 2;
+                                    b[at + 3] = *rng.pick(&[bc.saturating_sub(1), bc, ec, (ec + 1).min(255), 0, 255]) as u8;
+                                }
+                            }
+                            if b[at] == 0 && rng.chance(1, 2) {
+                                b[at] = 1; // make the character exist so that its tag is looked at
+                            }
+                        }
+                        2 if ne > 0 => {
+                            let at = sec[9].0 + 4 * rng.below(ne as u64) as usize + rng.below(4) as usize;
+                            b[at] = *rng.pick(&[bc.saturating_sub(1), bc, ec, (ec + 1).min(255), 0, 255]) as u8;
+                        }
+                        _ if nl > 0 => {
+                            // a lig/kern instruction: the first, the last or any other
+                            let i = match rng.below(3) {
+                                0 => 0,
+                                1 => nl - 1,
+                                _ => rng.below(nl as u64) as usize,
+                            };
+                            let at = sec[7].0 + 4 * i;
+                            let target = |v: usize| ((v >> 8) as u8, (v & 255) as u8);
+                            match rng.below(5) {
+                                0 => {
+                                    // boundary-character / redirect instruction pointing around nl
+                                    let (h, l) = target(around(&mut rng, nl, 65535));
+                                    b[at] = *rng.pick(&[255u8, 254, 129]);
+                                    b[at + 2] = h;
+                                    b[at + 3] = l;
+                                }
+                                1 => {
+                                    // kern step with an index around nk
+                                    let (h, l) = target(around(&mut rng, nk, 32767));
+                                    b[at] = *rng.pick(&[0u8, 128]);
+                                    b[at + 2] = 128u8.saturating_add(h.min(127));
+                                    b[at + 3] = l;
+                                }
+                                2 => {
+                                    // skip that lands around the end of the table
+                                    let left = nl - 1 - i;
+                                    b[at] = *rng.pick(&[left.saturating_sub(1), left, left + 1, 127, 128]).min(&255) as u8;
+                                }
+                                3 => {
+                                    // ligature step producing / expecting a character around the range
+                                    b[at + 1] = *rng.pick(&[bc.saturating_sub(1), bc, ec, (ec + 1).min(255)]) as u8;
+                                    b[at + 2] = rng.below(12) as u8;
+                                    b[at + 3] = *rng.pick(&[bc.saturating_sub(1), bc, ec, (ec + 1).min(255)]) as u8;
+                                }
+                                _ => {
+                                    b[at] = *rng.pick(EDGE_BYTES);
+                                    b[at + 2] = *rng.pick(EDGE_BYTES);
+                                }
+                            }
+                        }
+                        _ => {}
+                    }
+                }
+            } else {
+                mutate_bytes(&mut b, &mut rng, 2, 24);
+            }
+        }
         "shift" => {
             // move a table boundary: one size +d, another -d (the sum is unchanged)
             if b.len() >= 24 {
@@ -668,7 +794,7 @@ fn mutate_tfm(src: &[u8], class: &str, param: u64) -> Vec<u8> {
         _ => {
             // mix: two or three of the above
             for _ in 0..2 + rng.below(2) {
-                let c = *rng.pick(&["bytes", "section", "shift", "trunc_consistent", "extend", "bytes"]);
+                let c = *rng.pick(&["bytes", "section", "index", "shift", "trunc_consistent", "extend", "index"]);
                 b = mutate_tfm(&b, c, rng.next());
             }
         }
@@ -937,11 +1063,15 @@ fn mutate_pl(src: &str, class: &str, param: u64, deep: bool) -> String {
                     s.push('(');
                     s.push_str(word);
                 }
-                match rng.below(3) {
-                    0 => {}
-                    1 => s.push_str(&")".repeat(n)),
-                    _ => s.push_str(&")".repeat(n / 2)),
-                }
+                // every unbalanced parenthesis costs one warning whose rendering scans the source:
+                // beyond a few thousand levels only (nearly) balanced nests are generated
+                let closers = match rng.below(3) {
+                    _ if n > 3000 => n - rng.below(3) as usize,
+                    0 => 0,
+                    1 => n,
+                    _ => n / 2,
+                };
+                s.push_str(&")".repeat(closers));
                 toks.insert(i, s);
             }
             "char" => {
@@ -967,8 +1097,10 @@ fn mutate_pl(src: &str, class: &str, param: u64, deep: bool) -> String {
                         let text: String = toks[a..=z].concat();
                         if text.len() < 4000 {
                             let times = *rng.pick(&[2usize, 3, 17, 70, 260, 600]);
-                            let times = if deep && rng.chance(1, 10) { 40_000 } else { times };
-                            let cap = 3_000_000 / text.len().max(1);
+                            let times = if deep && rng.chance(1, 10) { 3_000 } else { times };
+                            // (a warning per copy, each rendered with a scan of the source: keep the
+                            // product of copies and size bounded)
+                            let cap = 200_000 / text.len().max(1);
                             let rep = format!("{text}\n").repeat(times.min(cap).max(1));
                             toks.insert(a, rep);
                         }
@@ -1057,22 +1189,30 @@ fn synth_pl(param: u64, deep: bool) -> String {
     let pool = *rng.pick(&[1usize, 2, 15, 16, 17, 63, 64, 65, 255, 256, 300]);
     let vals: Vec<String> = (0..pool).map(|i| format!("R {}.{:04}", i / 7, (i * 1237 + rng.below(3) as usize) % 10000)).collect();
     let tagmode = rng.below(6);
+    // half of the lists give character i the i-th value of the pool, so that the number of distinct
+    // widths/heights/depths/italics is exactly min(#characters, pool): the table limits 255/15/15/63
+    // are then hit exactly and exceeded by one
+    let cycle = rng.chance(1, 2);
     let mut declared: Vec<usize> = vec![];
     for i in 0..nchars {
         let c = if rng.chance(1, 12) { rng.below(256) as usize } else { first + i };
         declared.push(c);
         s.push_str(&format!("(CHARACTER O {:o}\n", c));
-        if rng.chance(9, 10) {
-            push(&mut s, format!("   (CHARWD {})", rng.pick(&vals)));
+        if cycle || rng.chance(9, 10) {
+            let v = if cycle { &vals[i % vals.len()] } else { rng.pick(&vals) };
+            push(&mut s, format!("   (CHARWD {})", v));
         }
-        if rng.chance(2, 3) {
-            push(&mut s, format!("   (CHARHT {})", rng.pick(&vals)));
+        if cycle || rng.chance(2, 3) {
+            let v = if cycle { &vals[i % vals.len()] } else { rng.pick(&vals) };
+            push(&mut s, format!("   (CHARHT {})", v));
         }
-        if rng.chance(1, 2) {
-            push(&mut s, format!("   (CHARDP {})", rng.pick(&vals)));
+        if cycle || rng.chance(1, 2) {
+            let v = if cycle { &vals[i % vals.len()] } else { rng.pick(&vals) };
+            push(&mut s, format!("   (CHARDP {})", v));
         }
-        if rng.chance(1, 2) {
-            push(&mut s, format!("   (CHARIC {})", rng.pick(&vals)));
+        if cycle || rng.chance(1, 2) {
+            let v = if cycle { &vals[i % vals.len()] } else { rng.pick(&vals) };
+            push(&mut s, format!("   (CHARIC {})", v));
         }
         match tagmode {
             0 if rng.chance(1, 2) => {
